@@ -13,7 +13,7 @@ DELAYS = [0, 0, 0.5, 1, 1, 2, 3, 0.25, 4, 1.5]
 INT_DELAYS = [0, 0, 1, 1, 2, 3, 4, 1, 2, 5]
 PRIOS = [1, 3, 5, 5, 5, 7, 10]
 EXCS = ["RuntimeError", "ValueError", "ZeroDivisionError", "KeyError",
-        "DSOLError", "AssertionError"]
+        "DSOLError", "AssertionError", "SystemExit", "KeyboardInterrupt", "HandlerGaveUp"]
 BAD_KINDS = ["past_abs", "neg_rel", "nan_abs", "nan_rel", "str_abs",
              "none_abs", "str_rel", "past_event", "tiny_neg_rel", "tiny_neg_rel",
              "tiny_past_abs", "nan_event", "nan_sub_event", "nan_custom_event",
@@ -39,8 +39,10 @@ def gen_program(rng, clock=None, n_events=None, p_cancel=0.12, p_bad=0.0,
         if unit == "s" and rng.random() < 0.5:
             delays = DELAYS + [7.75, 15.5, 14.25, 7.75]
     if rep is None:
-        start = rng.choice([0, 0, 0, 1, 2, 10])
+        start = rng.choice([0, 0, 0, 1, 2, 10, -10, -4])
         length = rng.choice([2, 3, 4, 5, 6, 8, 10, 10, 20])
+        if start < 0 and rng.random() < 0.5:
+            length = -start          # a replication that ends exactly at time 0
         warm = rng.choice([0, 0, 1, 2, length // 2, length, length + 3])
         if clock != "int":
             start = float(start)
